@@ -473,9 +473,34 @@ func usedBeforeTest(p *Program, s *errSite) string {
 				}
 			case *ssa.MakeInterface:
 				visitE(r, d+1)
+			case *ssa.Phi:
+				// P = phi(e, other…): P == nil implies e == nil when every other edge comes from a
+				// block that is itself under e == nil
+				okPhi := true
+				for i, edge := range r.Edges {
+					if edge == v {
+						continue
+					}
+					pred := r.Block().Preds[i]
+					under := false
+					for _, ns := range nilSuccs {
+						if len(ns.Preds) == 1 && ns.Dominates(pred) {
+							under = true
+						}
+					}
+					if !under {
+						okPhi = false
+					}
+				}
+				if okPhi {
+					visitE(r, d+1)
+				}
 			}
 		}
 	}
+	visitE(s.errVal, 0)
+	// second pass: phis may only be judged once the direct tests are known
+	seenE = map[ssa.Value]bool{}
 	visitE(s.errVal, 0)
 	refs := s.call.Referrers()
 	if refs == nil {
